@@ -470,6 +470,70 @@ def compare(op, a, b):
     return {"Eq": a == b, "Ne": a != b, "Lt": a < b, "Le": a <= b, "Gt": a > b, "Ge": a >= b}[op]
 
 
+def bytes_roles(prog):
+    """{'start': i, 'end': j, 'cursor': k} for the cursor type `Bytes`: its three raw-pointer fields,
+    told apart by what the code does with them rather than by their names -- the field that is
+    assigned from another field of the same value is the committed start, the field it is assigned
+    from is the cursor, the third pointer is the end.  The names are used when they are the usual ones."""
+    for t in prog.types:
+        if t and t["k"] == "adt" and M.tail_is(M.norm_path(t["path"]), "Bytes") and t.get("variants"):
+            fields = t["variants"][0]["fields"]
+            names = {f["name"]: i for i, f in enumerate(fields)}
+            if all(n in names for n in ("start", "end", "cursor")):
+                return {n: names[n] for n in ("start", "end", "cursor")}
+            tid = prog.types.index(t)
+            ptrs = [i for i, f in enumerate(fields) if prog.types[f["ty"]]["k"] in ("ptr",)]
+            if len(ptrs) != 3:
+                return None
+            pairs = set()
+            for inst in prog.insts:
+                b = inst["body"]
+                if not (inst["local"] and b):
+                    continue
+
+                def field_of(place):
+                    # (field index) when the place is <something of type Bytes>.field
+                    if not place["pr"] or place["pr"][-1][0] != "field":
+                        return None
+                    cur = b["locals"][place["l"]]["ty"]
+                    for pe in place["pr"][:-1]:
+                        ty = prog.types[cur]
+                        if pe[0] == "deref":
+                            cur = ty.get("to")
+                        elif pe[0] == "field":
+                            cur = pe[2]
+                        else:
+                            return None
+                        if cur is None:
+                            return None
+                    return place["pr"][-1][1] if cur == tid else None
+
+                copies = {}  # local -> field it was copied from
+                for bl in b["blocks"]:
+                    for st_ in bl["stmts"]:
+                        if st_["k"] != "assign":
+                            continue
+                        r = st_["r"]
+                        src = None
+                        if r["k"] == "use" and r["o"]["k"] in ("copy", "move"):
+                            sp = r["o"]["p"]
+                            src = field_of(sp)
+                            if src is None and not sp["pr"]:
+                                src = copies.get(sp["l"])
+                        dst = field_of(st_["p"])
+                        if dst is not None and src is not None and dst != src:
+                            pairs.add((dst, src))
+                        elif dst is None and not st_["p"]["pr"] and src is not None:
+                            copies[st_["p"]["l"]] = src
+            pairs = {(d, s_) for d, s_ in pairs if d in ptrs and s_ in ptrs}
+            if len(pairs) != 1:
+                return None
+            (start, cursor), = pairs
+            end = [i for i in ptrs if i not in (start, cursor)][0]
+            return {"start": start, "end": end, "cursor": cursor}
+    return None
+
+
 class Machine:
     def __init__(self, prog, prims=None, hooks=None):
         self.p = prog
@@ -569,14 +633,19 @@ class Machine:
         return t["k"] == "adt" and M.tail_is(M.norm_path(t["path"]), "Bytes")
 
     def bytes_field_index(self, name):
+        """Index of the cursor type's `start` / `end` / `cursor` pointer, by *role* (see bytes_roles)."""
         if self._bytes_fields is None:
-            for t in self.p.types:
-                if t and t["k"] == "adt" and M.tail_is(M.norm_path(t["path"]), "Bytes"):
-                    self._bytes_fields = {f["name"]: i for i, f in enumerate(t["variants"][0]["fields"])}
-                    break
-            else:
-                raise Unanalysable("anchor missing: type iter::Bytes")
+            self._bytes_fields = bytes_roles(self.p)
+            if self._bytes_fields is None:
+                raise Unanalysable("anchor missing: type Bytes with its three pointers")
         return self._bytes_fields.get(name)
+
+    def bytes_field_role(self, idx):
+        self.bytes_field_index("cursor")
+        for k, v in self._bytes_fields.items():
+            if v == idx:
+                return k
+        return None
 
     def skeleton(self, tid):
         """An uninitialised value with the right shape for aggregate types."""
@@ -1930,7 +1999,7 @@ class Machine:
                 elif pe[0] in ("index", "cidx"):
                     ptid = self.ty(ptid)["elem"]
             if self.is_bytes_adt(ptid) and self.hooks is not None:
-                fname = self.ty(ptid)["variants"][0]["fields"][pr[-1][1]]["name"]
+                fname = self.bytes_field_role(pr[-1][1]) or self.ty(ptid)["variants"][0]["fields"][pr[-1][1]]["name"]
                 self.hooks.on_bytes_field_store(self, st, fname, loc, v)
         self.write_loc(st, loc, v, tid)
 
